@@ -63,6 +63,11 @@ func verifyFunction(p *program, fn *ssa.Function, fc *funcContract, safetyOnly b
 		}
 	}
 	x.entry = st.clone()
+	if fc != nil {
+		for _, d := range fc.fdecr {
+			x.entryMeasure = append(x.entryMeasure, x.define("measure0", sInt, x.evalInt(env, d.expr)))
+		}
+	}
 	out := x.execBody(fr, st)
 	pos := p.pos(fn.Pos())
 	if !out.noRet && fc != nil {
